@@ -124,8 +124,16 @@ def check_sim(case) -> Result:
         res.build_error = e
         return res
     mdl = b.model
-    overl, outside, amb_seen = _judge(case, S.Trace(b), err, res, 'simulation')
-    if case.get('rerun') and err is None and not res.violations:
+    offset = 0
+    if case.get('lead_in'):
+        # the first segment ran open loop (no motor control handed to run()); the control comes with the continuation
+        if not traces:
+            res.classes += ('lead-in-raised',)
+            return res
+        offset = traces[0].n
+        res.classes += ('open-loop-lead-in',)
+    overl, outside, amb_seen = _judge(case, S.Trace(b), err, res, 'simulation', offset)
+    if case.get('rerun') and not case.get('lead_in') and err is None and not res.violations:
         # reset, re-apply the initial conditions, run again with the SAME PWMControl and rule objects: the arbitration
         # of the second epoch is judged on its own time axis
         err2 = None
@@ -145,7 +153,7 @@ def check_sim(case) -> Result:
     return res
 
 
-def _judge(case, tr, err, res, tag):
+def _judge(case, tr, err, res, tag, offset=0):
     pwm = tr.get(0, 'pwm') if 'pwm' in tr.vars[0] else []
     n_rec = len(pwm)
     times = tr.t
@@ -154,9 +162,16 @@ def _judge(case, tr, err, res, tag):
     amb_seen = False
     overl = False
     outside = False
+    pwm0 = case['motor'].get('pwm0', 1)
     for k in range(len(times)):
         props = []
         amb = False
+        if k < offset:
+            if k < n_rec and not (pwm[k] == pwm0):
+                res.bad(f'C14/{tag}/open-loop-duty-cycle', f'instant {k} of the open-loop segment: recorded duty cycle '
+                        f'{pwm[k]!r}, the motor was left at {pwm0!r}')
+                break
+            continue
         for r in case['control']:
             if r['rule'] == 'constant':
                 a, d = U.si('Time', *r['start']), U.si('TimeInterval', *r['duration'])
@@ -165,7 +180,7 @@ def _judge(case, tr, err, res, tag):
                     amb = True
                 props.append(r['value'] if RU.constant_active(times[k], a, d) else None)
             else:
-                props.append(r['values'][k % len(r['values'])])
+                props.append(r['values'][(k - offset) % len(r['values'])])
         if amb:
             amb_seen = True
             break
@@ -269,6 +284,14 @@ def s_sim(draw, max_steps=40):
     case['history'] = [dict(run, control=True)]
     if draw(st.integers(0, 3)) == 0:
         case['rerun'] = {'new_solver': draw(st.booleans())}
+    elif draw(st.integers(0, 3)) == 0:
+        lead = G.s_run(draw, mdl, min_steps=2, max_steps=8)
+        case['lead_in'] = True
+        case['history'] = [dict(lead, control=False), dict(run, control=True, new_solver=draw(st.integers(0, 2)) == 0)]
+        shift = U.si('TimeInterval', *lead['T'])
+        for r in rules:
+            if r['rule'] == 'constant':            # keep the windows inside the controlled segment
+                r['start'] = G.qty('Time', U.si('Time', *r['start']) + shift, r['start'][1])
     if draw(st.integers(0, 2)) == 0:
         # a preset duty cycle: with a motor control attached it must give way to the arbitration from the first instant
         case['motor']['pwm0'] = draw(st.sampled_from([0.5, -0.5, 0.3, -1, 0]))
